@@ -79,6 +79,24 @@ pub fn main(a: &Args) {
             };
             words.push(w);
         }
+        // every word in one of several letter-case shapes: as is, lower, UPPER, Title, iNVERTED (first letter
+        // lower, rest upper: tRNA, pH), aLtErNaTiNg - the output of one pass is the input of the next, and a pass
+        // may produce a shape (all capitals, ...) that the rules treat differently
+        if rng.chance(1, 2) {
+            let shape_all = rng.below(7);
+            for w in words.iter_mut() {
+                let shape = if rng.chance(1, 2) { shape_all } else { rng.below(7) };
+                let cs: Vec<char> = w.chars().collect();
+                *w = match shape {
+                    1 => w.to_lowercase(),
+                    2 => w.to_uppercase(),
+                    3 => cs.iter().enumerate().map(|(k, c)| if k == 0 { c.to_uppercase().collect::<String>() } else { c.to_lowercase().collect() }).collect(),
+                    4 => cs.iter().enumerate().map(|(k, c)| if k == 0 { c.to_lowercase().collect::<String>() } else { c.to_uppercase().collect() }).collect(),
+                    5 => cs.iter().enumerate().map(|(k, c)| if k % 2 == 0 { c.to_lowercase().collect::<String>() } else { c.to_uppercase().collect() }).collect(),
+                    _ => w.clone(),
+                };
+            }
+        }
         let mut t = words.join(if rng.chance(1, 10) { "  " } else { " " });
         match rng.below(8) {
             0 => t = t.to_uppercase(),
@@ -93,7 +111,7 @@ pub fn main(a: &Args) {
     for s in corpus.iter().take(a.num("corpus-n", 300) as usize) {
         texts.push(s.replace('\n', " "));
     }
-    for t in ["", " ", "a", "A", ".", "1", "the", "THE", "ß", "İstanbul", "i̇stanbul", "ǅ", "o'clock", "O’Clock"] {
+    for t in ["tRNA", "pH", "hELLO wORLD", "NASA pH", "tRNA: pH 7", "iPhone and eBay", "mRNA", "", " ", "a", "A", ".", "1", "the", "THE", "ß", "İstanbul", "i̇stanbul", "ǅ", "o'clock", "O’Clock"] {
         texts.push(t.to_string());
     }
     let evs = par_map(texts.len(), a.num("threads", 12) as usize, |_| (), |_, i| {
